@@ -34,7 +34,7 @@ def ops_for(rng, slot, k=None):
     if k == "asks": return [ask(slot)] * rng.choice([3, 6, 9])
     if k == "solve-all": return ["(solve-all %d)" % slot, ask(slot), "(solve %d)" % slot]
     if k == "solves": return ["(solve %d)" % slot] * rng.choice([2, 5])
-    if k == "partial": return [ask(slot)] * rng.choice([1, 2])        # abandoned half-way
+    if k == "partial": return [ask(slot)] * rng.choice([1, 2]) + (["(stop-now)"] if rng.random() < 0.3 else [])   # abandoned half-way; sometimes the flag is left raised, as after a real timeout
     return ["(stop-after %d)" % rng.choice([0, 1, 2, 3, 5, 8]), rng.choice(["(solve-all %d)", "(solve %d)"]) % slot]
 
 def cases(tier, rng):
